@@ -129,9 +129,9 @@ class Stack:
         self.attached = False
         self.started = False
         self.transport.blackhole = True
-        tasks = [self.prot.discovery.task, self.prot.subscriber.task]
+        tasks = [getattr(self.prot.discovery, "task", None), getattr(self.prot.subscriber, "task", None)]
         if self.role == "O":
-            tasks.append(self.instance._task)
+            tasks.append(getattr(self.instance, "_task", None))
         for t in tasks:
             if t is not None and not t.done():
                 t.cancel()
